@@ -243,8 +243,8 @@ def solver_side(prog: Program, rep) -> None:
             rep.check(guarded, "solver-rho-adopt-on-accept", m.qualname, short(st),
                       "the solver adopts the policy's rho only when the step is accepted after the policy's veto", m.loc(st))
             # ... and always then: the only further condition allowed is the exact test `next_rho != self.rho`
-            incs = [q for q in mf.order if sv_loop_member(q) and isinstance(q.stmt, ast.AugAssign) and U(q.stmt.target) == "iteration"]
-            base = incs[-1].facts if incs else []
+            from .solveloop import solve_loop
+            base = solve_loop(prog).completed_iteration_facts()
             extra = [f for f in si.facts if f not in base and not (f[0] == "truthy" and ".accept" in f[1])]
             exact = all(f[0] == "!=" and "next_rho" in (f[1] + (f[2] or "")) or (f[0] == "!=" and U(val) in (f[1], f[2]) and "self.rho" in (f[1], f[2]) or
                         (f[0] == "!=" and "__loop__('self.rho'" in (f[1] + (f[2] or "")))) for f in extra)
@@ -252,7 +252,9 @@ def solver_side(prog: Program, rep) -> None:
                       f"on an accepted step the policy's rho is adopted whenever it differs from the solver's (no tolerance or other condition; extra conditions: {[(f[0], f[1][:50], (f[2] or '')[:40]) for f in extra]})", m.loc(st))
             # arguments of update: (current iterate, candidate)
             call = val.value
-            a_ok = len(call.args) == 2 and U(call.args[0]).startswith("__loop__('iterate'") and U(call.args[1]).endswith(".iterate") and "_compute_step(" in U(call.args[1])
+            from .solveloop import solve_loop
+            itn = solve_loop(prog).names()["iterate"]
+            a_ok = len(call.args) == 2 and U(call.args[0]).startswith(f"__loop__('{itn}'") and U(call.args[1]).endswith(".iterate") and "_compute_step(" in U(call.args[1])
             rep.check(a_ok, "solver-rho-update-args", m.qualname, short(st),
                       "penalty_strategy.update receives (current iterate, candidate iterate of this trial)", m.loc(st))
         else:
